@@ -186,10 +186,11 @@ let formula_case kind lang dot s i nw atoms =
   let s = int_of_string s and i = int_of_string i in
   let nw = text_of_wire nw in
   let env = { pe_sheets = !sheets0; pe_ctx_sheet = nth_or !sheets0 s; pe_defnames = !defs0; pe_tables = [] } in
-  let mu = { pm_rc = true; pm_xlsx = false; pm_dot = bi dot; pm_row = zi "1"; pm_col = zi "1" } in
-  let nmu = names_of lang and nme = names_of "en" in
-  let failed = (match parse mu nmu env toks with None -> true | Some _ -> false) in
-  let out = rename_stored mu nmu nme env (z_of_int i) nw toks in
+  (* lang / dot: the user's configuration, recorded in the case line; since 9f60d5e the step does not depend on it *)
+  let _ = (lang, dot) in
+  let nme = names_of "en" in
+  let failed = (match parse m_stored nme env toks with None -> true | Some _ -> false) in
+  let out = rename_stored nme env (z_of_int i) nw toks in
   (* the environment after the operation; the defined-name texts (carried by DefinedNameKind nodes) are
      those the implementation has afterwards *)
   let env' = if kind = "R" then env_renamed (nat_of_int i) nw env else env_dup (nat_of_int i) nw env in
